@@ -1043,7 +1043,15 @@ class ApertureStats:
         The centroid is computed as the center of mass of the unmasked
         pixels within the aperture.
         """
-        origin = np.transpose((self.bbox_xmin, self.bbox_ymin))
+        # the cutout origin is the start of the data slices that overlap
+        # the aperture bounding box, which differs from the bounding box
+        # origin if the aperture extends beyond the lower or left edge
+        origin = np.array([(slc_lg[1].start, slc_lg[0].start)
+                           if slc_lg is not None else (np.nan, np.nan)
+                           for slc_lg, _ in self._overlap_slices],
+                          dtype=float)
+        if self.isscalar:
+            origin = origin[0]
         return self.cutout_centroid + origin
 
     @lazyproperty
